@@ -82,6 +82,8 @@ _TRUSTED = [
 PROPS = {
     "C10": dict(
         src="Properties/C10.v", target="Properties/C10.vo",
+        # statements about the tree as it is: the "flag is repaired" premises discharged against Extracted.Facts
+        more_src=["Properties/C10Current.v"],
         support=["Vars/Model.vo", "Vars/Proofs.vo", "Vars/ProofsSites.vo", "Vars/ProofsEnv.vo"], run_targets=["Run/VarsCases.vo"],
         drivers=[dict(name="vars", extra="prop=C10", n_quick=1152, n_thorough=256 * 24, shard=256,
                       results={"R_v_agree": "agree", "R_e_agree": "agree",
@@ -102,6 +104,8 @@ PROPS = {
     ),
     "C11": dict(
         src="Properties/C11.v", target="Properties/C11.vo",
+        # statements about the tree as it is: the "flag is repaired" premises discharged against Extracted.Facts
+        more_src=["Properties/C11Current.v"],
         support=["Vars/Model.vo", "Vars/Proofs.vo", "Vars/ProofsCache.vo"], run_targets=["Run/VarsCases.vo"],
         drivers=[dict(name="vars", extra="prop=C11", n_quick=150, n_thorough=3000, shard=150,
                       results={"R_n_agree": "agree", "R_n_dir": "mon", "R_n_env": "mon", "R_n_matrix": "mon", "R_n_defer": "mon", "R_n_other": "mon",
